@@ -47,12 +47,12 @@ Definition smem (x : string) (l : list string) : bool := existsb (String.eqb x) 
 Definition obs_step := (list string * list string * option (list string) * string)%type.
 
 (* ------------------------------------------------------------------ X: model agrees step by step *)
-Fixpoint x_run (st : state) (wkeys : list string) (pkeys : list (string * string))
+Fixpoint x_run (fx : bool) (st : state) (wkeys : list string) (pkeys : list (string * string))
          (evs : list event) (obs : list obs_step) : bool :=
   match evs, obs with
   | [], [] => true
   | ev :: evs', (ch, pr, us, ans) :: obs' =>
-      let '(st', out) := step st ev in
+      let '(st', out) := step fx st ev in
       same_set (map show_change (o_changes out)) ch &&
       same_set (map show_problem (o_problems out)) pr &&
       match o_usersigs out, us with
@@ -61,7 +61,7 @@ Fixpoint x_run (st : state) (wkeys : list string) (pkeys : list (string * string
       | _, _ => false
       end &&
       ascii_list_eqb (model_answers st' wkeys pkeys) (list_ascii_of_string ans) &&
-      x_run st' wkeys pkeys evs' obs'
+      x_run fx st' wkeys pkeys evs' obs'
   | _, _ => false
   end.
 
@@ -149,11 +149,11 @@ Definition pick (evs : list event) (idx : list nat) : list event := map (fun i =
     then, over all steps of the first run, how often each answer class was observed:
     duplicate, missing, bad timestamp, failed validation (WAF); invalid, policy missing, policy
     invalid, log conf missing, log conf invalid (DoS); usable] *)
-Definition c19_case (id : Z) (enabled : bool) (wkeys : list string) (pkeys : list (string * string))
+Definition c19_case (id : Z) (fx : bool) (enabled : bool) (wkeys : list string) (pkeys : list (string * string))
            (evs : list event) (runs : list (list nat * list obs_step)) : list Z :=
   let st0 := init enabled in
   let a0 := spec_answers acceptable enabled objs0 wkeys pkeys in
-  let agree := forallb (fun r => x_run st0 wkeys pkeys (pick evs (fst r)) (snd r)) runs in
+  let agree := forallb (fun r => x_run fx st0 wkeys pkeys (pick evs (fst r)) (snd r)) runs in
   let bits := fold_left (fun b r => Z.lor b (s_run enabled objs0 a0 wkeys pkeys (pick evs (fst r)) (snd r))) runs 0 in
   let fin := match runs with r :: _ => final_answers (snd r) | [] => "" end in
   let same_final := forallb (fun r => String.eqb (final_answers (snd r)) fin) runs in
@@ -170,15 +170,15 @@ Definition c19_case (id : Z) (enabled : bool) (wkeys : list string) (pkeys : lis
    cnt "I"%char; cnt "p"%char; cnt "P"%char; cnt "l"%char; cnt "L"%char; cnt "0"%char].
 
 (* for --replay: what the model returns, step by step, in the harness's projection *)
-Fixpoint x_trace (st : state) (wkeys : list string) (pkeys : list (string * string)) (evs : list event)
+Fixpoint x_trace (fx : bool) (st : state) (wkeys : list string) (pkeys : list (string * string)) (evs : list event)
   : list (list string * list string * option (list string) * string) :=
   match evs with
   | [] => []
   | ev :: evs' =>
-      let '(st', out) := step st ev in
+      let '(st', out) := step fx st ev in
       (ssort (map show_change (o_changes out)), ssort (map show_problem (o_problems out)),
        option_map ssort (o_usersigs out), string_of_list_ascii (model_answers st' wkeys pkeys))
-      :: x_trace st' wkeys pkeys evs'
+      :: x_trace fx st' wkeys pkeys evs'
   end.
 
 (* the specified answers after every step, natural reading *)
